@@ -87,7 +87,35 @@ def required(cls, mut):
     return True
 
 
+def _run_long_chain(case):
+    """converse clause: a well-formed input must be accepted whatever its size - a chain of 1100 nodes (deeper than Python's default
+    recursion limit) for every class"""
+    import networkx as nx
+    import flowpaths as fp
+    n = case["long_chain"]
+    G = nx.DiGraph()
+    for i in range(n - 1):
+        G.add_edge(f"v{i}", f"v{i + 1}", flow=3)
+    cls = getattr(fp, case["cls"])
+    kw = {"solver_options": {"threads": 1}}
+    if case["cls"] in HAS_K:
+        kw["k"] = 1
+    ctx = f"{case['cls']}(chain of {n} nodes, flow 3 on every arc)"
+    try:
+        m = cls(G, **kw) if "Cover" in case["cls"] else cls(G, flow_attr="flow", weight_type=int, **kw)
+        m.solve()
+        if not m.is_solved():
+            return {"v": [{"kind": "valid_input_unsolved", "msg": f"{ctx}: not solved"}], "nt": None, "tags": {}, "out": "long:unsolved"}
+    except BaseException as e:  # noqa (RecursionError is an Exception, but be thorough)
+        if isinstance(e, (KeyboardInterrupt, SystemExit)):
+            raise
+        return {"v": [{"kind": "valid_input_rejected", "msg": f"{ctx}: raised {type(e).__name__}: {str(e)[:120]}"}], "nt": None, "tags": {}, "out": "long:exc"}
+    return {"v": [], "nt": f"long_chain|{case['cls']}", "tags": {"long_chain": 1}, "out": "long:ok"}
+
+
 def cases(tier, seed):
+    for cls in DAG + CYC + ["MinErrorFlow"]:
+        yield {"cls": cls, "long_chain": 1100, "fam": "cyc" if cls in CYC else "dag"}
     for cls in DAG + CYC + ["MinErrorFlow"]:
         bases = BASES_CYC if cls in CYC else BASES_DAG + (BASES_CYC[:1] if cls == "MinErrorFlow" else [])
         for bi, base in enumerate(bases):
@@ -234,6 +262,8 @@ def _build(case):
 
 def run(case):
     import flowpaths as fp
+    if case.get("long_chain"):
+        return _run_long_chain(case)
     viol = []
     tags = collections.Counter()
     cls = getattr(fp, case["cls"])
